@@ -43,6 +43,20 @@ impl<T: Copy + Default> Vec<T> {
         while i < self.len { if f(&self.buf[i]) { self.buf[w] = self.buf[i]; w += 1; } i += 1; }
         self.len = w;
     }
+    /// std: removes CONSECUTIVE repeated elements (only)
+    pub fn dedup(&mut self) where T: PartialEq {
+        if self.len == 0 { return; }
+        let mut w = 1; let mut i = 1;
+        while i < self.len { if self.buf[i] != self.buf[w - 1] { self.buf[w] = self.buf[i]; w += 1; } i += 1; }
+        self.len = w;
+    }
+    pub fn truncate(&mut self, n: usize) { if n < self.len { self.len = n; } }
+    pub fn insert(&mut self, idx: usize, t: T) {
+        assert!(idx <= self.len, "insertion index should be <= len");
+        assert!(self.len < CAP, "model Vec capacity");
+        let mut i = self.len; while i > idx { self.buf[i] = self.buf[i - 1]; i -= 1; }
+        self.buf[idx] = t; self.len += 1;
+    }
     pub fn into_boxed_slice(self) -> Self { self }
     /// insertion sort (std's slice sort is a recursive driftsort that CBMC cannot unwind)
     pub fn sort(&mut self) where T: Ord {
